@@ -27,6 +27,8 @@ type webTransport struct {
 	// batches handed to Send that their writer goroutine has not written yet
 	inflight      atomic.Int32
 	closeWhenIdle atomic.Bool
+	// the reader goroutine starts with the first "packet" listener
+	reading sync.Once
 }
 
 // WebTransport transport
@@ -58,10 +60,18 @@ func (w *webTransport) Construct(ctx *types.HttpContext) {
 		w.OnClose()
 	})
 
-	go w.message()
-
 	w.SetWritable(true)
 	w.SetPerMessageDeflate(nil)
+}
+
+// On attaches listeners. Nothing is read from the stream before somebody listens for packets: what a
+// peer sends as soon as its connection is open (an upgrade probe) must not be emitted to nobody.
+func (w *webTransport) On(evt types.EventName, listeners ...types.Listener) error {
+	err := w.Transport.On(evt, listeners...)
+	if evt == "packet" {
+		w.reading.Do(func() { go w.message() })
+	}
+	return err
 }
 
 // Transport name
